@@ -223,7 +223,8 @@ def _ask(features):
         d["raii"] = {"graph": "drop", "_guard": "vx_drop_opt_guard"}
         d["proofs"] = [("drop(graph, w);",
                         "proof { assert(caller.id == callee.id || chain_unanswered(graph@, callee.id, caller.id)); /*L:ask.deadlock_panic.requires_unanswered_chain*/ }\n"
-                        "proof { assert(graph@ == w.graph()); /*L:ask.deadlock_panic.leaves_graph_as_found*/ }",
+                        "proof { assert(graph@ == w.graph()); /*L:ask.deadlock_panic.leaves_graph_as_found*/ }\n"
+                        "proof { assert(old(w).current_actor() == Some(caller)); /*L:ask.deadlock_panic.only_for_tracked_callers*/ }",
                         "before")]
     return d
 
@@ -533,6 +534,7 @@ EXTRA_LABELS = {
     "handle_message.pre.scope@dyn": "C14",
     "ask.deadlock_panic.requires_unanswered_chain": "C15",
     "ask.deadlock_panic.leaves_graph_as_found": "C12 C15",
+    "ask.deadlock_panic.only_for_tracked_callers": "C15",
     "mutex.no_reentrant_lock": "C12 C14",
     "hook.on_start.inside_actor_scope": "C14",
     "hook.inside_actor_scope": "C14",
